@@ -11,6 +11,7 @@ import (
 	"github.com/lugu/qiloop/type/conversion"
 	"github.com/lugu/qiloop/type/encoding"
 	"github.com/lugu/qiloop/type/object"
+	"github.com/lugu/qiloop/vhook"
 )
 
 // proxy is the parent strucuture for Service. It wraps Client and
@@ -95,32 +96,42 @@ func (p proxy) SubscribeID(action uint32) (func(), chan []byte, error) {
 			return nil, nil, fmt.Errorf("unknown signal: %d", action)
 		}
 	}
+	vhook.Gate("proxy.sub.local", "action", action)
 	cancel, bytes, err := p.client.Subscribe(p.service, p.object, action)
 	if err != nil {
 		return nil, nil, err
 
 	}
+	vhook.Gate("proxy.sub.inc", "action", action)
 	subscriptions := p.client.State(fmt.Sprintf("%d.%d.%d", p.service, p.object, action), 1)
 	if subscriptions == 1 {
 		handler := rand.Int()
+		vhook.Gate("proxy.sub.key", "action", action, "handler", handler)
 		p.client.State(fmt.Sprintf("%d.%d.%d.handler", p.service, p.object, action), handler)
 		obj := proxyObject{p}
+		vhook.Gate("proxy.sub.rpc", "action", action, "handler", handler)
 		_, err := obj.RegisterEvent(p.object, action, uint64(handler))
 		if err != nil {
 			return nil, nil, err
 		}
 	}
+	vhook.Gate("proxy.sub.done", "action", action)
 	return func() {
+		vhook.Gate("proxy.unsub.dec", "action", action)
 		subscriptions := p.client.State(fmt.Sprintf("%d.%d.%d", p.service, p.object, action), -1)
 		if subscriptions == 0 {
+			vhook.Gate("proxy.unsub.read", "action", action)
 			handler := p.client.State(fmt.Sprintf("%d.%d.%d.handler", p.service, p.object, action), 0)
+			vhook.Gate("proxy.unsub.clear", "action", action, "handler", handler)
 			p.client.State(fmt.Sprintf("%d.%d.%d.handler", p.service, p.object, action), -handler)
 			obj := proxyObject{p}
+			vhook.Gate("proxy.unsub.rpc", "action", action, "handler", handler)
 			err := obj.UnregisterEvent(p.object, action, uint64(handler))
 			if err != nil {
 				log.Printf("failed to unregister event action %d: %s", action, err)
 			}
 		}
+		vhook.Gate("proxy.unsub.local", "action", action)
 		cancel()
 	}, bytes, nil
 }
